@@ -10,7 +10,9 @@ run_batch() {
 r1=$(ls seeded | grep -E '^C[0-9]+$')
 r2=$(ls seeded | grep -E '^C[0-9]+_r2$')
 r3=$(ls seeded | grep -E '^C[0-9]+_r3$')
+r4=$(ls seeded | grep -E '^C[0-9]+_r4$')
 [ "${ONLY:-}" = "r3" ] || run_batch $r1
 [ "${ONLY:-}" = "r3" ] || run_batch $r2
 run_batch $r3
+run_batch $r4
 sort /tmp/mw/detect_all.txt
